@@ -32,3 +32,189 @@ def layout(rng, frag=None, commit_every=None, flush_den=None):
 
 def group_key(b):
     return json.dumps([b["par"], b["st"]], sort_keys=True)
+
+
+# ------------------------------------------------------------------------------------------
+# C16 / C17: session cases and trace validation
+# ------------------------------------------------------------------------------------------
+import os
+import verif
+
+PATTERNS = ["R", "T", "D"]
+BUFS = ["max", "retry", "ladder"]
+
+
+def session_case(rng, pair, profile="small", pattern=None, bufs=None, pingpong=None, big_node=None):
+    """Concretise a TLC pair {par, A, B} into an engine case."""
+    n = len(pair["par"])
+    plan = stretch_plan(rng, n, profile)
+    if big_node is not None:
+        node, kind, k = big_node
+        if node <= n:
+            plan[node - 1] = {"kind": kind if node > 1 else "chain", "k": k}
+    return {
+        "par": pair["par"], "A": sorted(pair["A"]), "B": sorted(pair["B"]),
+        "stretch": plan,
+        "layA": layout(rng), "layB": layout(rng),
+        "salt": rng.randrange(1 << 30),
+        "pattern": pattern or rng.choice(PATTERNS),
+        "bufs": bufs or rng.choice(BUFS),
+        "pingpong": (rng.random() < 0.35) if pingpong is None else pingpong,
+    }
+
+
+def chain_dag(n):
+    return [[]] + [[i] for i in range(1, n)]
+
+
+def pinned_cases(thorough):
+    """Hand-pinned regressions and threshold crossings (every field explicit: no seed dependence).
+    Each entry: (name, case)."""
+    lay0 = {"seed": 1, "frag": 0, "commit_every": 0, "flush_den": 0}
+    frag = {"seed": 3, "frag": 2, "commit_every": 1, "flush_den": 0}
+    out = []
+
+    def case(name, par, A, B, stretch, pattern, bufs, layA=lay0, layB=lay0, pingpong=False):
+        out.append((name, {"par": par, "A": A, "B": B, "stretch": stretch, "layA": layA, "layB": layB, "salt": 7,
+                           "pattern": pattern, "bufs": bufs, "pingpong": pingpong, "pinned": name}))
+
+    ch = lambda k: {"kind": "chain", "k": k}
+    fan = lambda k: {"kind": "fan", "k": k}
+    # DESIGN 7.8 (C17): one 150-command segment, too-small poll then retry
+    for pat in ("R", "T", "D"):
+        for bufs in ("retry", "ladder"):
+            case("c17-retry-150-%s-%s" % (pat, bufs), chain_dag(2), [1], [1, 2], [ch(1), ch(150)], pat, bufs)
+    # the historical straddling-segment case: two 60-command segments, one session
+    case("straddle-2x60", chain_dag(3), [1], [1, 2, 3], [ch(1), ch(60), ch(60)], "R", "max",
+         layB={"seed": 5, "frag": 0, "commit_every": 60, "flush_den": 0})
+    # > 100 commands per response, > 1 response per session, ping-pong of two diverged chains
+    case("diverged-chains-130-170", [[], [1], [1]], [1, 2], [1, 3], [ch(1), ch(130), ch(170)], "R", "max", pingpong=True)
+    case("diverged-chains-130-170-T", [[], [1], [1]], [1, 2], [1, 3], [ch(1), ch(130), ch(170)], "T", "retry", pingpong=True)
+    # > 100 segments on the responder (every command its own segment), requester behind
+    case("resp-140-segments", chain_dag(2), [1], [1, 2], [ch(1), ch(140)], "R", "max", layB=frag)
+    # sibling fan wider than a response but narrower than the sample limit, child under the first sibling
+    case("fan-90-child", [[], [1], [2]], [1, 2], [1, 2, 3], [ch(1), fan(90), ch(2)], "T", "max")
+    if thorough:
+        case("resp-140-segments-D", chain_dag(2), [1], [1, 2], [ch(1), ch(140)], "D", "ladder", layB=frag)
+        case("fan-99-child", [[], [1], [2]], [1, 2], [1, 2, 3], [ch(1), fan(99), ch(2)], "R", "max")
+        case("chain-300x3", chain_dag(4), [1, 2], [1, 2, 3, 4], [ch(1), ch(300), ch(300), ch(300)], "D", "retry")
+        case("merge-of-long-chains", [[], [1], [1], [2, 3], [4]], [1, 2], [1, 2, 3, 4, 5],
+             [ch(1), ch(210), ch(180), ch(3), ch(120)], "R", "ladder", pingpong=True)
+    return out
+
+
+def known_cases(thorough):
+    """The classes of DESIGN 7.6 (known findings) and their narrower neighbours that must pass."""
+    lay0 = {"seed": 1, "frag": 0, "commit_every": 0, "flush_den": 0}
+    frag = {"seed": 3, "frag": 2, "commit_every": 1, "flush_den": 0}
+    out = []
+    ch = lambda k: {"kind": "chain", "k": k}
+    fan = lambda k: {"kind": "fan", "k": k}
+
+    def case(name, par, A, B, stretch, pattern, bufs="max", layA=lay0, layB=lay0):
+        out.append((name, {"par": par, "A": A, "B": B, "stretch": stretch, "layA": layA, "layB": layB, "salt": 7,
+                           "pattern": pattern, "bufs": bufs, "pingpong": False, "pinned": name}))
+    star = [[], [1], [2]]
+    # (b) requester diverged by >= 100 own segments (fresh caches) vs responder with > 100 segments
+    div = [[], [1], [2], [2]]          # 1 init, 2 shared chain, 3 A's own chain, 4 B's own chain
+    case("known-b-unknown-sample", div, [1, 2, 3], [1, 2, 4], [ch(1), ch(150), ch(110), ch(5)], "T", layA=frag, layB=frag)
+    case("narrow-b-own-60", div, [1, 2, 3], [1, 2, 4], [ch(1), ch(150), ch(60), ch(5)], "T", layA=frag, layB=frag)
+    if thorough:
+        # (a) requester with more heads than the sample limit: livelock
+        case("known-a-star-300", star, [1, 2], [1, 2, 3], [ch(1), fan(300), ch(1)], "R")
+        case("known-a-star-300-T", star, [1, 2], [1, 2, 3], [ch(1), fan(300), ch(1)], "T")
+        case("narrow-a-star-100", star, [1, 2], [1, 2, 3], [ch(1), fan(100), ch(1)], "R")
+        case("narrow-a-star-150-T", star, [1, 2], [1, 2, 3], [ch(1), fan(150), ch(1)], "T")
+        case("known-b-unknown-sample-D", div, [1, 2, 3], [1, 2, 4], [ch(1), ch(250), ch(120), ch(5)], "D", layA=frag, layB=frag)
+        case("known-b-R", div, [1, 2, 3], [1, 2, 4], [ch(1), ch(150), ch(110), ch(5)], "R", layA=frag, layB=frag)
+    return out
+
+
+def _corruptions(lines, base_case, first_id):
+    """Three corrupted copies of the recorded events of one good case (binding self-test):
+    a command dropped from a response (parents-first), an index perturbed, a delivered command
+    removed from the responder's committed set (unsound)."""
+    ev = [json.loads(json.dumps(e)) for e in lines if e["case"] == base_case]
+    resp = [k for k, e in enumerate(ev) if e["e"] == "response" and len(e["cmds"]) >= 4]
+    if not resp:
+        return []
+    out = []
+    for n, what in enumerate(("drop", "index", "unsound")):
+        mut = json.loads(json.dumps(ev))
+        r = mut[resp[0]]
+        if what == "drop":
+            del r["cmds"][1]
+        elif what == "index":
+            r["index"] += 1
+        else:
+            reset = [e for e in mut if e["e"] == "reset"][0]
+            side = [e for e in mut if e["e"] == "sample"][0]["resp"]
+            reset[side] = [x for x in reset[side] if x != r["cmds"][2]]
+        for e in mut:
+            e["case"] = first_id + n
+        out.append((what, mut))
+    return out
+
+
+def run_sessions(ctx, vh, cases, tag="session", selftest_case=None):
+    """Run the engine on `cases`, validate the recorded trace with Trace_Sync, return
+    (results, bad, nlines) where bad = list of {"line","case","key"} (case = index into cases).
+    `selftest_case`: index of a case whose recorded events are appended three more times, each
+    corrupted in one field; Trace_Sync must flag every corrupted copy (binding self-test)."""
+    trace = os.path.join(ctx.workdir, tag + ".trace.ndjson")
+    res = ctx.run_engine(vh, "session", cases, opts={"trace": trace}, tag=tag, timeout=3000)
+    if len(res) != len(cases):
+        raise verif.ToolError("engine returned %d results for %d cases" % (len(res), len(cases)))
+    lines = [json.loads(l) for l in open(trace)]
+    nlines = len(lines)
+    corr = []
+    if selftest_case is not None:
+        corr = _corruptions(lines, selftest_case, len(cases))
+        with open(trace, "a") as f:
+            for _, mut in corr:
+                for e in mut:
+                    f.write(json.dumps(e, separators=(",", ":")) + "\n")
+    accepted, n, r = ctx.validate_trace("Trace_Sync", "Trace_Sync.cfg", trace, timeout=3000, tag="trace-" + tag)
+    bad = []
+    for p in r.prints:
+        if p.startswith("BAD "):
+            bad.append(json.loads(p[4:]))
+    if "TRACE-ACCEPTED" not in r.output and "TRACE-REJECTED" not in r.output:
+        import sys
+        sys.stderr.write(ctx._tail(r.output))
+        raise verif.ToolError("Trace_Sync gave no verdict (spec error?)")
+    if accepted and bad:
+        raise verif.ToolError("Trace_Sync accepted a trace with BAD records")
+    if not accepted and not bad:
+        raise verif.ToolError("Trace_Sync rejected the trace at %s without a BAD record (trace not fully consumed?)" % n)
+    if corr and not any(b["case"] == selftest_case for b in bad):
+        want = {"drop": "C17:parents-first", "index": "C17:index", "unsound": "C17:unsound-command"}
+        for k, (what, _) in enumerate(corr):
+            got = [b["key"] for b in bad if b["case"] == len(cases) + k]
+            if got != [want[what]]:
+                raise verif.ToolError("binding self-test failed: corrupted trace (%s) gave %s, expected %s" % (what, got, want[what]))
+        ctx.cov["selftest"] = "dropped command / perturbed index / uncommitted command each rejected by Trace_Sync"
+    bad = [b for b in bad if b["case"] < len(cases)]
+    return res, bad, nlines
+
+
+def report(ctx, prop, cases, res, bad):
+    """Turn BAD records into violations of `prop`.  A C17 clause failing in a case also means the
+    sessions of that case never delivered everything: C16 reports it as session-failed."""
+    byc = {}
+    for b in bad:
+        byc.setdefault(b["case"], []).append(b)
+    nviol = 0
+    for ci, bs in sorted(byc.items()):
+        for b in bs:
+            key = b["key"]
+            if key.startswith(prop + ":"):
+                pass
+            elif prop == "C16" and key.startswith("C17:"):
+                key = "C16:session-failed:" + key
+            else:
+                continue
+            nviol += 1
+            ctx.violation(key, "trace line %d of case %d: clause %s failed" % (b["line"], ci, b["key"]),
+                          {"input": cases[ci], "result": {"bad": b, "obs": res[ci].get("obs")}})
+    return nviol
